@@ -104,6 +104,10 @@ package dns
 //@   modifies H.ZoneParser.fsys.tag@zp H.ZoneParser.fsys.val@zp
 //@ func NewZoneParser [C06 C07]
 //@   opt no-safety
+// the initial origin is kept fully qualified, like one set by $ORIGIN: relative names are completed with it as it stands
+//@   exit fq: called("Fqdn") ==> same(ret0.origin, callres("Fqdn")) [C06]
+//@   callsite "Fqdn" given: same(arg0, old(origin)) [C06]
+//@   exit asked: len(old(origin)) > 0 ==> called("Fqdn") [C06]
 //@   ensures ret0 != nil && ret0.c != nil && ret0.sub == nil && (ret0.c.l.value == 1 ==> len(ret0.c.l.token) > 0) && (ret0.c.cachedL != nil ==> (ret0.c.cachedL.value == 1 ==> len(ret0.c.cachedL.token) > 0))
 //@   fresh
 //@ func (*ZoneParser).generate [C06 C07]
@@ -285,7 +289,10 @@ package dns
 //@   exit unsigned: ret1 == nil ==> called("ParseUint") && ret0 == callres("ParseUint", 0) [C05]
 //@ func parseAddrHostUnion [C07]
 // a $GENERATE modifier pads to at most 255 characters, so the text a short line expands to stays bounded
+// the offset and width of a $GENERATE modifier are decimal numbers (a leading 0 does not make them octal)
 //@ func modToPrintf [C07 C06]
+//@   callsite "ParseInt" dec: arg1 == 10 [C06]
+//@   callsite "ParseUint" decw: arg1 == 10 [C06]
 //@   exit width: len(ret2) == 0 ==> 0 <= width && width <= 255 [C07]
 //@ func svcbStringToKey [C07]
 //@ func svcbParamToStr [C07 C05]
